@@ -289,7 +289,7 @@ static void inverses(unsigned long long& unit)
 int main(int argc, char** argv)
 {
 	mc::init(argc, argv);
-	if(mc::ctx().replay) { printf("%s\n", mc::ctx().replay_case.c_str()); return 0; }
+	if(mc::ctx().replay) { printf("%s\n(no single-case replay for this part; use ./vcheck --replay <file>, which re-runs the enumeration for this key)\n", mc::ctx().replay_case.c_str()); return 0; }
 	silence();
 	mc::bound("rule", "M1: every reachable state of the global factorial memo (171 lengths) x every letter (171 Factorial + 144 Binomial_Coefficient calls), oracle = fresh memo; M3: all 0<=k<=n<=400, GammaLn/Gamma on 2001 points, P/Q on an (a,x) grid with both sides of x=a+1 and a=100, inverses on 60 probabilities x the a grid; references: Pascal triangle, lgammal, positive series + Lentz continued fraction (must agree)");
 	unsigned long long unit = 0;
